@@ -228,6 +228,14 @@ def gen_repo():
         for var in ("y", "u", "v"):
             out.append(f"def YUV_{fn.upper()}_MULHI_{var.upper()} : List Nat := [" + ", ".join(b for a, b in calls if a == var) + "]\n")
         out.append(f"def YUV_{fn.upper()}_OFFSETS : List Int := [" + ", ".join(("-" if s == "-" else "") + v for s, v in offs) + "]\n")
+    # literals of the quantiser set-up (read_quantization_indices)
+    for name, pat in [("Y2DC_MUL", r"y2dc = dc_quant\([^)]*\) \* (\d+);"), ("Y2AC_NUM", r"ac_quant\(base \+ y2ac_delta\)\) \* (\d+) / \d+\)"),
+                      ("Y2AC_DEN", r"ac_quant\(base \+ y2ac_delta\)\) \* \d+ / (\d+)\)"), ("Y2AC_MIN", r"y2ac < (\d+)"), ("UVDC_MAX", r"uvdc > (\d+)")]:
+        mm = re.search(pat, t)
+        if mm:
+            out.append(f"def {name} : Nat := {mm.group(1)}\n")
+        else:
+            missing.append(name)
     m = re.search(r"fn clip\(v: i32\) -> u8 \{\s*const YUV_FIX2: i32 = (\d+);", t)
     out.append(f"def YUV_FIX2 : Nat := {m.group(1) if m else 0}\n")
     out.append("end Gen.Tables\n")
@@ -278,6 +286,47 @@ def gen_libwebp():
             missing.append(cname)
         else:
             out.append(emit(lname, v))
+    # VP8 (lossy) tables
+    def rd(f):
+        try:
+            return open(os.path.join(d, f)).read()
+        except Exception:
+            return ""
+    quant, tree, vp8d = rd("src/dec/quant_dec.c"), rd("src/dec/tree_dec.c"), rd("src/dec/vp8_dec.c")
+    for text, cname in [(quant, "kDcTable"), (quant, "kAcTable"), (tree, "CoeffsProba0"), (tree, "CoeffsUpdateProba"),
+                        (tree, "kBModesProba"), (tree, "kBands"), (vp8d, "kZigzag"), (vp8d, "kCat3"), (vp8d, "kCat4"),
+                        (vp8d, "kCat5"), (vp8d, "kCat6")]:
+        try:
+            v = c_array(text, cname)
+        except Exception:
+            v = None
+        if v is None:
+            missing.append(cname)
+        else:
+            out.append(emit(cname, v))
+    # literals of the quantiser set-up and of GetLargeValue
+    m = re.search(r"y2_mat_\[1\] = \(kAcTable\[[^\]]*\] \* (\d+)\) >> (\d+);", quant)
+    if m:
+        out.append(f"def y2acMul : Nat := {m.group(1)}\ndef y2acShift : Nat := {m.group(2)}\n")
+    else:
+        missing.append("y2acMul")
+    m = re.search(r"uv_mat_\[0\] = kDcTable\[clip\(q \+ dquv_dc, (\d+)\)\];", quant)
+    if m:
+        out.append(f"def uvdcClip : Nat := {m.group(1)}\n")
+    else:
+        missing.append("uvdcClip")
+    m = re.search(r"v = 5 \+ VP8GetBit\(br, (\d+),.*?v = 7 \+ 2 \* VP8GetBit\(br, (\d+),.*?v \+= VP8GetBit\(br, (\d+),", vp8d, flags=re.S)
+    if m:
+        out.append(f"def kCat1 : List Nat := [{m.group(1)}]\ndef kCat2 : List Nat := [{m.group(2)}, {m.group(3)}]\n")
+    else:
+        missing.append("kCat1/kCat2")
+    dsp = rd("src/dsp/dec.c")
+    m1 = re.search(r"#define MUL1\(a\) \(\(\(\(a\) \* (\d+)\) >> 16\) \+ \(a\)\)", dsp)
+    m2 = re.search(r"#define MUL2\(a\) \(\(\(a\) \* (\d+)\) >> 16\)", dsp)
+    if m1 and m2:
+        out.append(f"def kC1minus65536 : Nat := {m1.group(1)}\ndef kC2 : Nat := {m2.group(1)}\n")
+    else:
+        missing.append("kC1/kC2")
     out.append("end Gen.Libwebp\n")
     if missing:
         out.append("-- MISSING: " + ", ".join(missing) + "\n")
